@@ -43,6 +43,7 @@ type chunkConn struct {
 	ci      int
 	rem     int  // what is left of the current piece
 	stalled bool // at the end of data: block until closed instead of EOF
+	failW   bool // every Write fails (the peer is gone)
 	closed  chan struct{}
 	once    sync.Once
 	wrote   []byte
@@ -97,6 +98,9 @@ func (c *chunkConn) Read(b []byte) (int, error) {
 }
 
 func (c *chunkConn) Write(b []byte) (int, error) {
+	if c.failW {
+		return 0, io.ErrClosedPipe
+	}
 	select {
 	case <-c.closed:
 		return 0, net.ErrClosed
@@ -547,6 +551,51 @@ func runSend(r *rand.Rand) string {
 	return fmt.Sprintf("(%s, %s, %s)", coqgen.Bool(ipc), coqgen.List(specs), coqgen.Hex(w))
 }
 
+// a Send whose write fails: the error is returned and the message stays the caller's -- the pipe must not have
+// released it (the protocols free or re-queue a message whose send failed; a second release hands the buffer to
+// somebody else while it is still in use).  Returns (error returned?, releases by the pipe during Send).
+var sendHook struct {
+	mu    sync.Mutex
+	m     *mangos.Message
+	frees int
+}
+
+func runSendFail(ipc bool, n int) (bool, int) {
+	c := newChunkConn(nil, nil, true)
+	c.failW = true
+	pi := transport.ProtocolInfo{Self: 0x50, Peer: 0x51}
+	var p transport.ConnPipe
+	if ipc {
+		p = transport.NewConnPipeIPC(c, pi)
+	} else {
+		p = transport.NewConnPipe(c, pi)
+	}
+	m := mangos.NewMessage(n)
+	m.Body = append(m.Body, coqgen.GenBody(7, n)...)
+	sendHook.mu.Lock()
+	sendHook.m, sendHook.frees = m, 0
+	sendHook.mu.Unlock()
+	mangos.VerifHook = func(op mangos.VerifOp, x *mangos.Message, ref int32, arg int) {
+		if op == mangos.VerifOpFree {
+			sendHook.mu.Lock()
+			if x == sendHook.m {
+				sendHook.frees++
+			}
+			sendHook.mu.Unlock()
+		}
+	}
+	err := p.Send(m)
+	mangos.VerifHook = nil
+	sendHook.mu.Lock()
+	fr := sendHook.frees
+	sendHook.mu.Unlock()
+	if err != nil && fr == 0 {
+		m.Free() // ours
+	}
+	_ = c.Close()
+	return err != nil, fr
+}
+
 func main() {
 	if len(os.Args) < 2 {
 		fmt.Fprintln(os.Stderr, "usage: stream <outdir>")
@@ -593,6 +642,11 @@ func main() {
 		}
 		late = append(late, fmt.Sprintf("(%q, %s, %s)%s", "ws upgrade completing after listener Close", coqgen.Bool(ret), coqgen.Bool(cl), n))
 	}
+	var sf []string
+	for i, n := range []int{0, 1, 63, 64, 65, 1000, 60000, 70000} {
+		e, fr := runSendFail(i%2 == 1, n)
+		sf = append(sf, fmt.Sprintf("(%s, %d, %s, %d)", coqgen.Bool(i%2 == 1), n, coqgen.Bool(e), fr))
+	}
 	const shards = 16
 	for k := 0; k < shards; k++ {
 		w := coqgen.Create(filepath.Join(os.Args[1], fmt.Sprintf("defs_%03d.v", k)))
@@ -600,8 +654,10 @@ func main() {
 		w.Def("send_cases", "list (bool * list (string * string) * string)", ss[k*len(ss)/shards:(k+1)*len(ss)/shards])
 		if k == 0 {
 			w.Def("late_cases", "list (string * bool * bool)", late)
+			w.Def("sendfail_cases", "list (bool * N * bool * N)", sf)
 		} else {
 			w.Def("late_cases", "list (string * bool * bool)", nil)
+			w.Def("sendfail_cases", "list (bool * N * bool * N)", nil)
 		}
 		w.Close()
 	}
